@@ -197,7 +197,8 @@ def _probe_csv(res, inp, world, tr, closure, parent, tmp):
     seg = inp.get("_pristine_seg") if inp.get("_pristine_seg") is not None else tr.segmentation
     display = inp["display"]
     kwargs = {}
-    if seg is not None and not display:
+    if seg is not None and (not display or inp.get("zarr") == 3):
+        # (with display names in a third of those cases: the flag "zarr" is unused for CSV)
         kwargs = {"export_seg": True, "seg_path": tmp / "s.tif"}
     if inp.get("colors"):
         # a colour for every node (as a viewer keeps them): adds a colour column, nothing else
